@@ -269,7 +269,7 @@ FALLBACK = {
                    ("multi_order", ["C02"], "see multi_state"), ("multi_finish", ["C04", "C02", "C03"], "see multi_state"), ("multi_logs", ["C03", "C02"], "see multi_state"),
                    ("multi_bottom", ["C03", "C02"], "see draw_to_term")],
     "pins_iter": [("iter_adaptors", ["C17"], "see c17_adaptors")],
-    "c09_estimator": [("est_laws", ["C09"], "finite / non-negative / bounded / steady-exact / reset-forgets on the real f64 estimator: 5 rates x 6 gap patterns x 40 samples")],
+    "c09_estimator": [("bar_cells", ["C13"], "see c13_format_bar (ProgressState::fraction feeds the bar geometry)"), ("est_laws", ["C09"], "finite / non-negative / bounded / steady-exact / reset-forgets on the real f64 estimator: 5 rates x 6 gap patterns x 40 samples")],
     "c14_style": [("style_build", ["C14"], "builders reject or produce a renderable style (family of tick/progress strings)")],
     "c10_template": [("template_fields", ["C10", "C12"], "width / alignment / truncation options of a placeholder reach the renderer as written: 14 templates"),
                      ("template_total", ["C10"], "parser totality on generated strings up to length 6 over the grammar alphabet"),
